@@ -1,7 +1,8 @@
 import KafVerif.Model.AclGate
+import KafVerif.Model.AclSession
 import KafVerif.Gen.C24Guards
 import KafVerif.Prelude.Driver
-open KafVerif KafVerif.AclGate
+open KafVerif KafVerif.AclGate KafVerif.GoStr
 
 /-- item as sent by the check: `name:allowed:exists` (name = small id) -/
 def parseItem (s : String) : Option (Item × Bool) :=
@@ -11,8 +12,38 @@ def parseItem (s : String) : Option (Item × Bool) :=
 
 def bits (l : List Bool) : String := joinWith "," (l.map fun b => if b then "1" else "0")
 
-def stepLine (u : Unit) (ws : List String) : Unit × String :=
+/-- driver state: the ACL configuration being assembled and the session model's handler state
+(`AclSession.State`: authorizer + denial log + counters), ONE per `open` -/
+structure St where
+  cfg : Acl.Config := { enabled := true, defaultPolicy := [], principals := [] }
+  sess : AclSession.State := AclSession.init { enabled := true, defaultPolicy := [], principals := [] }
+
+def addRule (c : Acl.Config) (isAllow : Bool) (r : Acl.Rule) : Option Acl.Config :=
+  match c.principals.reverse with
+  | [] => none
+  | e :: rest =>
+    let e' := if isAllow then { e with allow := e.allow ++ [r] } else { e with deny := e.deny ++ [r] }
+    some { c with principals := (e' :: rest).reverse }
+
+def stepLine (u : St) (ws : List String) : St × String :=
   match ws with
+  -- session model: cfg / pr / al / dn assemble the ACL configuration, `open` builds the handler (newHandler),
+  -- `rq <principal> <action> <resource> <name>` (hex) is ONE h.allow* call on that handler: the decision of
+  -- `AclSession.step` in the handler's current state, and the pure `Acl.allows cfg` next to it
+  | ["cfg", dp] => match runesOfHex dp with
+    | some d => ({ u with cfg := { enabled := true, defaultPolicy := d, principals := [] } }, "ok")
+    | none => (u, "bad-op")
+  | ["pr", n] => match runesOfHex n with
+    | some n => ({ u with cfg := { u.cfg with principals := u.cfg.principals ++ [{ name := n, allow := [], deny := [] }] } }, "ok")
+    | none => (u, "bad-op")
+  | ["open"] => ({ u with sess := AclSession.init u.cfg }, "ok")
+  | ["rq", p, a, r, n] =>
+    match runesOfHex p, runesOfHex a, runesOfHex r, runesOfHex n with
+    | some p, some a, some r, some n =>
+      let req : Acl.Req := { principal := p, action := a, resource := r, name := n }
+      let o := AclSession.step u.sess { req := req, dt := 1 }
+      ({ u with sess := o.1 }, s!"d={if o.2 then 1 else 0} pure={if Acl.allows u.cfg req then 1 else 0} denied={o.1.deniedTotal}")
+    | _, _, _, _ => (u, "bad-op")
   -- do <key> <autocreate> <items…> : which items the gate (as extracted from the CURRENT source) answers with an
   -- authorization error
   | "do" :: key :: auto :: rest =>
@@ -29,6 +60,15 @@ def stepLine (u : Unit) (ws : List String) : Unit × String :=
         let deny := if k == 3 then (List.zip deny its).map (fun (d, it) => d && !it.2 && auto == "1") else deny
         (u, s!"deny={bits deny} gran={repr g}")
     | _, _ => (u, "bad-op")
+  | [k, a, r, n] =>
+    if k == "al" || k == "dn" then
+      match runesOfHex a, runesOfHex r, runesOfHex n with
+      | some a, some r, some n =>
+        match addRule u.cfg (k == "al") { action := a, resource := r, name := n } with
+        | some c => ({ u with cfg := c }, "ok")
+        | none => (u, "bad-op")
+      | _, _, _ => (u, "bad-op")
+    else (u, "bad-op")
   | _ => (u, "bad-op")
 
-def main : IO Unit := runLines () stepLine
+def main : IO Unit := runLines ({} : St) stepLine
